@@ -1,8 +1,8 @@
 (** C19 — Only authorised callers configure or act for others; paused means no fund moves.
 
-    Table layer: statements quantified over EVERY row of the access table (587 rows: every function
+    Table layer: statements quantified over EVERY row of the access table (648 rows: every function
     the Rust sources of the 16 contracts export, plus the "acting for another user" argument
-    variants), every caller role and every contract state of the row's contract (11926 cells) — the
+    variants and the multi-payment on-behalf variants with a foreign-owner payment at each position), every caller role and every contract state of the row's contract (13230 cells) — the
     domain is finite, the proofs evaluate the rule on all of it.  [C19_inventory_covered] ties the
     table to the generated inventory Gen/Endpoints.v (563 functions).
     Semantic layer: the guard primitives for ALL callers, the permissions / pausable modules and the
@@ -131,6 +131,67 @@ Theorem C19_on_behalf_rewards_to_owner : forall h caller owners reward sends,
 Proof. exact claim_on_behalf_to_owner. Qed.
 Print Assumptions C19_on_behalf_rewards_to_owner.
 
+(** on-behalf calls that pay several positions (enterFarmOnBehalf / stakeFarmOnBehalf with additional
+    position tokens, claimRewardsOnBehalf with several positions, farm-staking-proxy stakeFarmOnBehalf
+    with additional dual-yield tokens): a row with a payment recorded for ANOTHER owner at ANY position
+    — main, first additional, second additional — is disallowed for every role in every state,
+    whether that other owner authorised the caller too, revoked it, or never authorised it *)
+Theorem C19_foreign_owner_payment_refused : forall r ro st k o,
+  In r access_table -> In ro (roles_of (row_contract r)) -> In st (states_of (row_contract r)) ->
+  row_variant r = VForeignOwner k o -> row_allowed r ro st = false.
+Proof. exact foreign_owner_payment_refused. Qed.
+Print Assumptions C19_foreign_owner_payment_refused.
+
+(** the all-own control row (same three payments, all recorded for the user) is allowed for the
+    authorised agent only *)
+Theorem C19_multi_own_only_agent : forall r ro st,
+  In r access_table -> In ro (roles_of (row_contract r)) -> In st (states_of (row_contract r)) ->
+  row_variant r = VMultiOwn -> row_allowed r ro st = true -> ro = RAgentAuth.
+Proof. exact multi_own_only_authorised_agent. Qed.
+Print Assumptions C19_multi_own_only_agent.
+
+(** those rows exist for every multi-payment on-behalf endpoint, every owner-carrying payment position
+    and every relation of the other owner to the caller; their guards are [GHubOwned (payments_of v)];
+    and every hub-guarded endpoint is in that list (or takes a single payment) *)
+Theorem C19_multi_payment_rows_complete : forall c e ks k o,
+  In (c, e, ks) multi_payment_on_behalf -> In k ks ->
+  lookup c e VMultiOwn <> None /\ lookup c e (VForeignOwner k o) <> None.
+Proof. exact multi_payment_rows_complete. Qed.
+Print Assumptions C19_multi_payment_rows_complete.
+
+Theorem C19_multi_rows_wellformed : forall r, In r access_table ->
+  multi_row_wellformed r = true /\ hub_row_listed r = true.
+Proof. intros r H. split; [exact (multi_rows_wellformed r H) | exact (hub_rows_listed r H)]. Qed.
+Print Assumptions C19_multi_rows_wellformed.
+
+(** the rule behind the rows, for ALL callers, hubs and owner lists: the guard passes iff every paid
+    position is recorded for the user and the hub authorises the caller for that user ... *)
+Theorem C19_hub_owned_guard : forall open l f,
+  guard_ok open (GHubOwned l) f = true <->
+  (forall t, In t l -> t = OUser) /\ cf_hub_listed f = true /\ cf_hub_black f = false.
+Proof. exact guard_hub_owned_iff. Qed.
+Print Assumptions C19_hub_owned_guard.
+
+(** ... entering / staking on behalf with a position recorded for anybody but the user fails for every
+    caller and EVERY hub state (the other owner's authorisations are never consulted) ... *)
+Theorem C19_enter_on_behalf_foreign_refused : forall h caller user owners b,
+  In b owners -> b <> user -> enter_on_behalf h caller user owners = Err EPerm.
+Proof. exact enter_on_behalf_foreign_refused. Qed.
+Print Assumptions C19_enter_on_behalf_foreign_refused.
+
+Theorem C19_enter_on_behalf_sound : forall h caller user owners,
+  enter_on_behalf h caller user owners = Ok tt ->
+  is_whitelisted h user caller = true /\ forall o, In o owners -> o = user.
+Proof. exact enter_on_behalf_sound. Qed.
+Print Assumptions C19_enter_on_behalf_sound.
+
+(** ... and so does a claim on behalf paying positions of two different owners (corollary of
+    C19_on_behalf_rewards_to_owner) *)
+Theorem C19_claim_mixed_owners_refused : forall h caller owners reward a b,
+  In a owners -> In b owners -> a <> b -> is_ok (claim_on_behalf h caller owners reward) = false.
+Proof. exact claim_on_behalf_mixed_owners_refused. Qed.
+Print Assumptions C19_claim_mixed_owners_refused.
+
 (** ---- clause 3: paused or inactive means no user operation that moves funds *)
 
 (** every fund-moving row of pair / farm / farm-with-locked-rewards / farm-staking / energy-factory,
@@ -212,7 +273,7 @@ Print Assumptions C19_allowed_iff.
     paused refuses all three; an authorised agent passes the hub rule, the revoked and the
     blacklisted one do not (a hub history: whitelist x3, removeWhitelist, blacklist). *)
 Example C19_nonvacuous :
-  table_rows = 587 /\ inventory_rows = 563 /\ table_cells = 11926 /\
+  table_rows = 648 /\ inventory_rows = 563 /\ table_cells = 13230 /\
   (let p := Model.Pair.run (init_pair 300 50 (Some 7)) [AddInitial 7 2000000 6000000] in
    p_state p = ST_PartialActive /\
    is_ok (Model.Pair.step p (Add 1 1000 3000 1 1)) = true /\
@@ -227,5 +288,11 @@ Example C19_nonvacuous :
    is_whitelisted h 1 4 = true /\ is_whitelisted h 1 5 = false /\ is_whitelisted h 1 6 = false /\
    is_whitelisted h 2 4 = false /\
    claim_on_behalf h 4 [1; 1] 500 = Ok [(1, 500)] /\ claim_on_behalf h 5 [1; 1] 500 = Err EPerm /\
-   claim_on_behalf h 6 [1] 500 = Err EPerm /\ claim_on_behalf h 4 [1; 2] 500 = Err EGuard).
+   claim_on_behalf h 6 [1] 500 = Err EPerm /\ claim_on_behalf h 4 [1; 2] 500 = Err EGuard /\
+   (let h2 := hub_run h [HWhitelist 2 4] in      (* user 2 authorises agent 4 as well: still refused *)
+    enter_on_behalf h2 4 1 [1; 1; 1] = Ok tt /\ enter_on_behalf h2 4 1 [1; 2; 1] = Err EPerm /\
+    enter_on_behalf h2 4 1 [2; 1; 1] = Err EPerm /\ enter_on_behalf h2 4 1 [1; 1; 2] = Err EPerm /\
+    is_ok (claim_on_behalf h2 4 [1; 2; 1] 500) = false) /\
+   allowed (OnBehalfMulti SActive) CFarm RAgentAuth Active = true /\
+   allowed (ForeignOwner 1 OAlsoAuthorised SActive) CFarm RAgentAuth Active = false).
 Proof. vm_compute. repeat split. Qed.
